@@ -153,6 +153,15 @@ def cases(tier, seed=0):
         for c2, c3 in itertools.product([c for c in one if c[1] in (16, 32) and c[0] < 2 and c[2] in ("grow30", "grow20", "fix16x3", "fix20x2")], repeat=2):
             cs = sorted((c1, c2, c3), key=lambda c: c[0])
             out.append(tuple(cs))
+    # hand-over ticks: a later operator of one container starts (its demand jumps, possibly over its allocation) in the
+    # very tick a neighbour finishes or is created - movements of the pool total that cancel each other
+    hand = [(o, a, p) for o in (0, 1, 2) for a in (8, 16) for p in ("rise", "shrink", "two")]
+    other = [(o, a, p) for o in (0, 1, 2) for a in (16, 32) for p in ("fix12x1", "fix16x3", "fix4x2", "fix20x2")]
+    for c1 in hand:
+        for c2 in other:
+            out.append((c1, c2) if c1[0] <= c2[0] else (c2, c1))
+            if c1[0] == c2[0]:
+                out.append((c2, c1))
     # three containers
     small = [(o, a, p) for o in (0, 1) for a in ((16, 32) if tier == "quick" else (8, 16, 32, 40)) for p in profs]
     for cs in itertools.product(small, repeat=3):
